@@ -764,7 +764,7 @@ def has_degenerate(a) -> bool:
         if (isinstance(n, ast.BoolOp) and len(n.values) < 2 or isinstance(n, ast.Compare) and not n.ops or isinstance(n, ast.MatchOr) and len(n.patterns) < 2
             or isinstance(n, (ast.ListComp, ast.SetComp, ast.DictComp, ast.GeneratorExp)) and not n.generators or isinstance(n, (ast.With, ast.AsyncWith)) and not n.items
             or isinstance(n, (ast.Assign, ast.Delete)) and not n.targets or isinstance(n, (ast.Import, ast.ImportFrom, ast.Global, ast.Nonlocal)) and not n.names
-            or isinstance(n, ast.Set) and not n.elts or isinstance(n, (ast.Try, ast.TryStar)) and not n.handlers and not n.finalbody
+            or isinstance(n, ast.Set) and not n.elts or isinstance(n, (ast.Try, ast.TryStar)) and not n.handlers and (not n.finalbody or n.orelse or isinstance(n, ast.TryStar))
             or isinstance(n, ast.Match) and not n.cases
             or any(isinstance(getattr(n, f, None), list) and not getattr(n, f) for f in ('body',) if not isinstance(n, ast.Module))
         ):
